@@ -51,6 +51,15 @@ CHECKS["C10"] = dict(
     note="Exact dyadic arithmetic; multi-width overshoots under MIRROR_BOTH may give any in-bounds value.",
     design="4 (C10)")
 
+CHECKS["C06"] = dict(
+    text="Evaluator.tla models the request machine (function cache, which rows each call must ask for); TLC explores every call "
+         "sequence of bounded length over {functions (batch), gradient, both} x 2 points with configuration variants; each is "
+         "replayed twice (different garbage in inactive entries) with a label-encoding, optionally memoising evaluator; Trace_C06 "
+         "checks rows-exactly-once, user-domain variables, value<->label correspondence, inactive=>zero weight, split-gradient "
+         "completeness, ownership (no write/re-bind of evaluator data), snapshot immutability and garbage-independence.",
+    note="Bounded call sequences; result equality across the garbage pair via interned SHA-256 signatures computed by the harness.",
+    design="4 (C06)")
+
 NOT_APPLICABLE = {}
 
 def main():
